@@ -280,19 +280,38 @@ def check_pair(ctext, iltext, il_subs, res, opts=None, optab=None):
         if cx.defined or ix.defined:
             if _solve(s, opts.timeout_ms) == "unsat":
                 return Result("gap", "definedness assumptions unsatisfiable (vacuous)")
-        for cond, what in ist.obligations + cst.obligations:
+        # C-side unwinding obligations first: if the C loop itself can exceed the bound the program is outside the bound
+        il_unwind = []
+        for side, (cond, what) in [("C", o) for o in cst.obligations if o not in ist.obligations] + [("IL", o) for o in ist.obligations]:
             if D.is_false(cond):
+                continue
+            is_unwind = "unwinding" in what
+            if is_unwind and what.startswith("IL"):
+                il_unwind.append((cond, what))
                 continue
             s.push()
             s.add(cond)
             r = _solve(s, opts.timeout_ms)
-            if r == "sat" and "unwinding" not in what:
+            if r == "sat" and not is_unwind:
                 m = s.model()
                 s.pop()
                 return Result("uninit", what, model=_model_dict(m, env))
             s.pop()
             if r != "unsat":
-                return Result("unwind" if "unwinding" in what else "unknown", what + f" ({r})")
+                return Result("unwind" if is_unwind else "unknown", what + f" ({r})")
+        # the C loops provably stay inside the bound: an IL loop that can exceed it runs longer than the C loop (divergence)
+        for cond, what in il_unwind:
+            s.push()
+            s.add(cond)
+            r = _solve(s, opts.timeout_ms)
+            if r == "sat":
+                m = s.model()
+                s.pop()
+                return Result("value", "['loop trip count']: the emitted REPEAT is still running after the unwinding bound although the C "
+                              "loop has provably ended", bad=["loop trip count"], model=_model_dict(m, env), replayed=False)
+            s.pop()
+            if r != "unsat":
+                return Result("unwind", what + f" ({r})")
         s.add(z3.Or(*[d for _, d in diffs]) if diffs else z3.BoolVal(False))
         r = _solve(s, opts.timeout_ms)
         dt = time.time() - t0
